@@ -498,6 +498,37 @@ def inline_locals(stmts, e, keep=()):
     return T().visit(ast.parse(ast.unparse(e), mode='eval').body)
 
 
+def returned_exprs(fn):
+    """[(Return node, returned expression)] of a function (nested defs excluded): `tmp = E; return tmp` yields E, and a name that
+    is a single-assignment local of the function body is replaced by its definition"""
+    out = []
+
+    def block(stmts):
+        for i, st in enumerate(stmts):
+            if isinstance(st, ast.Return) and st.value is not None:
+                v = st.value
+                if isinstance(v, ast.Name) and i > 0 and isinstance(stmts[i - 1], ast.Assign) and len(stmts[i - 1].targets) == 1 \
+                        and isinstance(stmts[i - 1].targets[0], ast.Name) and stmts[i - 1].targets[0].id == v.id:
+                    v = stmts[i - 1].value
+                elif isinstance(v, ast.Name):
+                    v = inline_locals(fn.body, v, {a.arg for a in fn.args.args})
+                out.append((st, v))
+            if isinstance(st, (ast.FunctionDef, ast.AsyncFunctionDef, ast.ClassDef)):
+                continue
+            for fld in ('body', 'orelse', 'finalbody'):
+                sub = getattr(st, fld, None)
+                if isinstance(sub, list) and sub and isinstance(sub[0], ast.stmt):
+                    block(sub)
+            if isinstance(st, ast.Try):
+                for h in st.handlers:
+                    block(h.body)
+            if isinstance(st, ast.Match):
+                for c in st.cases:
+                    block(c.body)
+    block(fn.body)
+    return out
+
+
 def operand_positions(ctx, py, fn, local_defs, theory, STACK, receivers, LABEL, loop):
     # (1) get_delta: the i-th floating hypothesis is read from slot -(n+1)+i, keyed by the metavariable it instantiates
     gd = local_defs.get('get_delta')
@@ -616,8 +647,9 @@ def operand_positions(ctx, py, fn, local_defs, theory, STACK, receivers, LABEL, 
     bmp = py.method('BasicInterpreter', 'modus_ponens')
     bparams = [a.arg for a in bmp.args.args][1:]
     from ..core.pyeval import PyEval
+    from ..core.pyfacts import self_method_resolver
     imp_param = set()
-    for pp in PyEval().paths(bmp):
+    for pp in PyEval(resolver=self_method_resolver(py, py.cls('BasicInterpreter'), ('param', 'self'))).paths(bmp):
         for ev in pp.events:
             v = ev.value
             if ev.kind in ('call', 'ecall') and isinstance(v, tuple) and v and v[0] == 'call' and v[1] == ('attr', ('name', 'Implies'), 'extract') \
